@@ -102,6 +102,21 @@ def defclass(name, parent):
     user[name] = type(base)(name, (base,), {"__init__": __init__, "_matmat": _matmat})
     events.append({"decl": [name, parent]})
 errors = []
+def partials(e):
+    """operator objects whose __init__ was running when the exception passed through: their assignments so far did
+    reach the class registry"""
+    tb, found = e.__traceback__, []
+    while tb is not None:
+        fr = tb.tb_frame
+        o = fr.f_locals.get("self")
+        if fr.f_code.co_name == "__init__" and isinstance(o, LinearOperator) and not any(o is x for x in found) and not any(o is x for x in seen):
+            found.append(o)
+        tb = tb.tb_next
+    for o in reversed(found):            # innermost first
+        seen.append(o)
+        for k, x in vars(o).items(): walk(x)
+        events.append({"partial": {"cls": type(o).__name__, "parent": type(o).__mro__[1].__name__,
+                                   "assigns": [[k, enc(x)] for k, x in vars(o).items()]}})
 for st in spec:
     try:
         if st[0] == "defclass":
@@ -110,9 +125,42 @@ for st in spec:
             walk(mk(st))
     except Exception as e:
         errors.append([st, type(e).__name__ + ": " + str(e)[:200]])
+        partials(e)
 end = [[leafdesc(l) for l in o.flatten()[0]] for o in objs]
 print("RESULT" + json.dumps({"events": events, "end": end, "errors": errors}))
 '''
+
+
+C01_PROBE = r'''
+import sys, json
+sys.path.insert(0, %(harness)r)
+import shim
+import numpy as np
+from cola import ops
+present = []
+def chk(flag, f):
+    try:
+        if f(): present.append(flag)
+    except Exception:
+        present.append(flag)
+chk("sparse_unsorted_cols", lambda: not np.array_equal(np.asarray(ops.Sparse(np.array([2., 3.]), np.array([1, 1]), np.array([2, 0]), (2, 3)).to_dense()), np.array([[0., 0., 0.], [3., 0., 2.]])))
+chk("concat_assert_wrong_axis", lambda: not np.array_equal(ops.Concatenated(ops.Dense(np.ones((1, 2))), ops.Dense(np.ones((2, 2))), axis=0).to_dense(), np.ones((3, 2))))
+chk("sliced_index_array_cpu", lambda: not np.array_equal(ops.Sliced(ops.Dense(np.arange(9.).reshape(3, 3)), (np.array([0, 2]), slice(None))).to_dense(), np.arange(9.).reshape(3, 3)[[0, 2]]))
+chk("kronsum_inplace_dtype", lambda: not np.array_equal(np.asarray(ops.KronSum(ops.Dense(np.array([[1j]])), ops.Dense(np.array([[2 + 0j]]))) @ np.ones(1), dtype=complex), np.array([2 + 1j])))
+print("RESULT" + json.dumps(present))
+'''
+
+
+def c01_flags(repo):
+    """recorded findings of C01 that spoil constructors / densification, probed in a FRESH interpreter: a failing
+    constructor call would otherwise leave its mark in this process's class registry"""
+    env = dict(os.environ, PYTHONPATH=repo, PYTHONHASHSEED="0", COLA_REPO=repo)
+    code = C01_PROBE % dict(harness=os.path.join(core.VERIF, "harness"))
+    p = subprocess.run([core.PY, "-c", code], capture_output=True, text=True, timeout=120, env=env)
+    m = re.search(r"^RESULT(.*)$", p.stdout, flags=re.M)
+    if not m:
+        raise RuntimeError("C01 probe subprocess failed: " + (p.stderr or p.stdout)[-500:])
+    return set(json.loads(m.group(1)))
 
 
 def run_script(spec, repo):
@@ -221,12 +269,16 @@ def coq_case(res):
     evs, now = [], []
     for e in res["events"]:
         if "decl" in e:
-            evs.append(f"EDecl {cstr(e['decl'][0])} {cstr(e['decl'][1])}")
+            evs.append(f"XE (EDecl {cstr(e['decl'][0])} {cstr(e['decl'][1])})")
         else:
-            c = e["cons"]
-            evs.append("ECons {| k_cls := %s; k_parent := %s; k_assigns := [%s] |}"
-                       % (cstr(c["cls"]), cstr(c["parent"]), ";".join(f"({cstr(k)},{cval(x)})" for k, x in c["assigns"])))
-            now.append(cleaves(e["now"]))
+            c = e.get("cons") or e["partial"]
+            k = ("{| k_cls := %s; k_parent := %s; k_assigns := [%s] |}"
+                 % (cstr(c["cls"]), cstr(c["parent"]), ";".join(f"({cstr(k)},{cval(x)})" for k, x in c["assigns"])))
+            if "cons" in e:
+                evs.append(f"XE (ECons {k})")
+                now.append(cleaves(e["now"]))
+            else:
+                evs.append(f"XPartial {k}")
     return "{| r_hist := [%s];\n   r_now := [%s];\n   r_end := [%s] |}" % (";\n  ".join(evs), ";".join(now), ";".join(cleaves(x) for x in res["end"]))
 
 
